@@ -9,6 +9,7 @@ import (
 	"reflect"
 	"runtime"
 	"strconv"
+	"strings"
 	"time"
 
 	"github.com/cloudwego/frugal"
@@ -16,9 +17,12 @@ import (
 )
 
 type stepCtx struct {
-	sc   *Scenario
-	outs map[int][]byte        // bytes produced by encode steps
-	objs map[int]reflect.Value // destination objects (*S) of decode steps
+	sc    *Scenario
+	outs  map[int][]byte        // bytes produced by encode steps
+	objs  map[int]reflect.Value // destination objects (*S) of decode steps
+	ins   map[int][]byte        // input buffers of decode steps that keep their object
+	objTy map[int]string
+	snaps map[int]string // value digests taken right after decoding
 
 	emitLine func(string) // writes one trace line of the running step at once
 	par      bool         // inside a concurrent section: process-wide counters are meaningless
@@ -66,7 +70,7 @@ func runScenario(idx int, sc *Scenario, first int) {
 		emit(fmt.Sprintf(`{"ev":"Scenario","scen":%d,"sid":%s,"prop":%s,"vals":%s}`,
 			idx, strconv.Quote(sc.Sid), strconv.Quote(sc.Prop), vals))
 	}
-	ctx := &stepCtx{sc: sc, outs: map[int][]byte{}, objs: map[int]reflect.Value{}}
+	ctx := &stepCtx{sc: sc, outs: map[int][]byte{}, objs: map[int]reflect.Value{}, ins: map[int][]byte{}, objTy: map[int]string{}, snaps: map[int]string{}}
 	for k, st := range sc.Steps {
 		if k < first {
 			continue
@@ -113,8 +117,23 @@ func (c *stepCtx) runStep(k int, st map[string]interface{}) []string {
 	case "allocs":
 		return []string{c.stepAllocs(st)}
 	case "gc":
-		runtime.GC()
+		churn()
 		return []string{`"ev":"GC"`}
+	case "walk":
+		return []string{c.stepWalk(st)}
+	case "overwrite":
+		if in, ok := c.ins[num(st, "obj", -1)]; ok {
+			for i := range in {
+				in[i] = byte(num(st, "byte", 255))
+			}
+		}
+		return []string{fmt.Sprintf(`"ev":"Overwrite","obj":%d`, num(st, "obj", -1))}
+	case "drop":
+		delete(c.objs, num(st, "obj", -1))
+		delete(c.ins, num(st, "obj", -1))
+		return []string{fmt.Sprintf(`"ev":"Drop","obj":%d`, num(st, "obj", -1))}
+	case "recheck":
+		return []string{c.stepRecheck(st)}
 	}
 	fmt.Fprintln(os.Stderr, "harness: unknown op", st["op"])
 	return []string{`"ev":"Unknown"`}
@@ -355,6 +374,11 @@ func (c *stepCtx) stepDecode(k int, st map[string]interface{}) string {
 		return head + fmt.Sprintf(`"out":"err","n":%d,`, n) + errObs(err) + "}"
 	}
 	c.objs[k] = dest
+	if c.ins != nil {
+		c.ins[k] = in
+		c.objTy[k] = ty
+		c.snaps[k] = valueDigestNoNocopy(ty, dest)
+	}
 	return head + fmt.Sprintf(`"out":"ok","n":%d,"val":%s}`, n, projectStruct(ty, dest))
 }
 
@@ -363,6 +387,76 @@ func (c *stepCtx) quiet(x int) int {
 		return 0
 	}
 	return x
+}
+
+// churn allocates and drops garbage of many size classes around two collections, so that
+// memory freed by mistake is reused (and, with GODEBUG=clobberfree=1, overwritten)
+var churnSink [][]byte
+
+func churn() {
+	for r := 0; r < 2; r++ {
+		for i := 0; i < 2000; i++ {
+			churnSink = append(churnSink, make([]byte, 8+(i*37)%3000))
+		}
+		churnSink = nil
+		runtime.GC()
+	}
+	fill := make([][]byte, 0, 3000)
+	for i := 0; i < 3000; i++ {
+		b := make([]byte, 8+(i*53)%2500)
+		for j := range b {
+			b[j] = 0xCD
+		}
+		fill = append(fill, b)
+	}
+	runtime.KeepAlive(fill)
+}
+
+// stepRecheck projects a kept object again: the judge compares with the snapshot taken
+// right after decoding; nocopy fields are reported separately (they follow the input)
+func (c *stepCtx) stepRecheck(st map[string]interface{}) string {
+	k := num(st, "obj", -1)
+	ov, ok := c.objs[k]
+	if !ok {
+		return fmt.Sprintf(`"ev":"Skipped","why":"no object from step %d"`, k)
+	}
+	ty := c.objTy[k]
+	var nb bytes.Buffer
+	nocopyNow(&nb, structT(ty), ov.Elem(), "")
+	return fmt.Sprintf(`"ev":"Recheck","ty":%q,"obj":%d,"after":%q,"obs":{"out":"ok","snap":%q,"now":%q,"nocopy":[%s]}`,
+		ty, k, str(st, "after", ""), c.snaps[k], valueDigestNoNocopy(ty, ov), strings.TrimSuffix(nb.String(), ","))
+}
+
+func nocopyNow(w *bytes.Buffer, t *TypeD, rv reflect.Value, path string) {
+	if t.K != "struct" {
+		return
+	}
+	if t.Ptr {
+		if rv.IsNil() {
+			return
+		}
+		rv = rv.Elem()
+	}
+	for _, f := range defs[t.S].Fields {
+		fv := rv.Field(f.idx)
+		if f.Nocopy {
+			var b []byte
+			if f.T.Ptr {
+				if fv.IsNil() {
+					continue
+				}
+				fv = fv.Elem()
+			}
+			if f.T.K == "string" {
+				b = []byte(fv.String())
+			} else {
+				b = fv.Bytes()
+			}
+			fmt.Fprintf(w, `{"path":%q,"bytes":%s},`, path+"."+f.Key, jbytes(b))
+		} else if f.T.K == "struct" {
+			nocopyNow(w, f.T, fv, path+"."+f.Key)
+		}
+	}
 }
 
 func clamp(x uint64) int {
